@@ -645,6 +645,13 @@ func checkSum(e *Env, r *cliRunner, c *CliCase) {
 		e.Skip("archive-out-of-range")
 		return
 	}
+	for _, it := range items {
+		// the archive selection must be valid for the layout of every item
+		if _, lay, err := expectedSum(files[it], from, until, now); err == nil && selected(c.Cmd.Archive, len(lay)) == nil {
+			e.Skip("archive-out-of-range")
+			return
+		}
+	}
 	if res.err != nil {
 		if c.Tick != nil {
 			e.Note("sum-failed-under-tick")
